@@ -149,7 +149,7 @@ type inliner struct {
 	imports       map[string]string // path -> local name to add to the current file
 	writtenObjs   map[types.Object]bool
 	pendingThread *threadInfo
-	pendingRange  *rangeInfo // the next inlined call is the operand of a range statement: unroll the body at its return sites
+	pendingRange  *rangeInfo                   // the next inlined call is the operand of a range statement: unroll the body at its return sites
 	litFuncs      map[types.Object]*types.Func // local variable / parameter bound once to a function literal and only ever called
 	litSynth      map[*types.Func]bool         // … bound while inlining (a callback argument): its free variables are the caller's
 	litVars       map[types.Object]bool        // closure variables of the source that are being inlined (their definition gets a blank use)
